@@ -294,3 +294,31 @@ var htmlSafeSet = [utf8.RuneSelf]bool{
 	'~':      true,
 	'\u007f': true,
 }
+
+// AppendJSONStrContent appends src to dst escaped as the content of a JSON
+// string (without the surrounding quotes). Only the double quote, the
+// backslash and the control characters are escaped; every other byte is
+// copied as is, so the original bytes are recovered exactly by unescaping.
+func AppendJSONStrContent(dst, src []byte) []byte {
+	start := 0
+	for i, b := range src {
+		if b >= ' ' && b != '"' && b != '\\' {
+			continue
+		}
+		dst = append(dst, src[start:i]...)
+		start = i + 1
+		switch b {
+		case '"', '\\':
+			dst = append(dst, '\\', b)
+		case '\n':
+			dst = append(dst, '\\', 'n')
+		case '\r':
+			dst = append(dst, '\\', 'r')
+		case '\t':
+			dst = append(dst, '\\', 't')
+		default:
+			dst = append(dst, '\\', 'u', '0', '0', hex[b>>4], hex[b&0xF])
+		}
+	}
+	return append(dst, src[start:]...)
+}
